@@ -124,7 +124,7 @@ def parse_frames(bufs):
 # client side
 
 def detect_fixes():
-    """which of the four repairs does the code under test contain?  Decided by the four minimal
+    """which of the repairs does the code under test contain?  Decided by the minimal
     witnesses on the real code (also used for the VIOLATION reports)."""
     res = {}
     r = run_client("B", 1, 2, [("D", 5, ("10.0.0.1", 1000), None, b"a"), ("D", 5, ("10.0.0.1", 1001), None, b"b")])
@@ -135,6 +135,8 @@ def detect_fixes():
     res["F4"] = not r[-1].startswith("CRASH")
     r = run_server(("10.9.9.9", 53), [], [(5, [(7, "Q", b"q", 0)], [], [("e", errno.ENETUNREACH)])])
     res["F10"] = not r[-1].startswith("CRASH")
+    r = run_server(None, [], [(5, [(7, "O", b"2", 0), (7, "C", b"", 0), (7, "O", b"2", 0)], [], [])])
+    res["F80"] = r[-1] != "FATAL"
     return res
 
 
@@ -157,6 +159,10 @@ WITNESS = {
     "F10": {"side": "server", "to_ns": ["10.9.9.9", 53], "sysns": [],
             "events": [[5, [[7, "Q", "71", 0]], [], [["e", errno.ENETUNREACH]]]],
             "what": "connect() of the resolver socket fails with ENETUNREACH outside the try: the OSError escapes DnsProxy.__init__ and kills the server"},
+    "F80": {"side": "server", "to_ns": None, "sysns": [],
+            "events": [[5, [[1, "O", "32", 0], [1, "D", "382e382e382e382c35332c61", 0]], [], []],
+                       [36, [[1, "C", "-", 0], [1, "O", "32", 0], [1, "D", "382e382e382e382c35332c62", 0]], [], []]],
+            "what": "the client closes an idle UDP association and re-uses its identifier for the next one (all other identifiers busy): UDP_CLOSE and UDP_OPEN of the identifier reach the server in one read, udphandlers still holds the closed association until the sweep after runonce, udp_open raises Fatal('UDP connection channel 1 already open') and the server exits, taking every flow of the tunnel with it"},
 }
 
 
@@ -167,7 +173,7 @@ def witness_fails(fid):
         r = run_client(*des_client(w))
     else:
         r = run_server(*des_server(w))
-    return r[-1].startswith("CRASH"), r[-1]
+    return r[-1].startswith("CRASH") or r[-1] == "FATAL", r[-1]
 
 
 def _cmsg_for(dst):
@@ -666,7 +672,7 @@ def io_s(it):
 
 
 def server_line(fixes, to_ns, sysns, events):
-    toks = ["S"] + ["1" if fixes[k] else "0" for k in ("F3", "F4", "F10", "F16")]
+    toks = ["S"] + ["1" if fixes[k] else "0" for k in ("F3", "F4", "F10", "F16", "F80")]
     toks.append(addr_s(to_ns) if to_ns else "~")
     toks.append(",".join(hx(s) for s in sysns) or "~")
     for now, frames, ready, io in events:
@@ -967,6 +973,9 @@ def oracle_server(prop, to_ns, sysns, evs, steps):
             if st.startswith("CRASH") and st.split()[1] not in crash_causes(evs, i):
                 bad.append(("crash", "step %d -> %s (script justifies only %s)"
                             % (i, st, ",".join(sorted(crash_causes(evs, i))) or "nothing")))
+            # Props/C11.v c11_server_never_fatal: with F80 repaired no script makes the loop leave through Fatal
+            if st == "FATAL":
+                bad.append(("fatal", "step %d -> the server exits through Fatal" % i))
             break
         outs = parse_outs(st)
         # DNS: targets, verbatim payload, attempts
@@ -1112,7 +1121,7 @@ def des_server(d):
 # ======================================================================
 # the check shared by C10 and C11
 
-FIDS = {"C10": ["F3", "F10", "F16"], "C11": ["F3u", "F4", "F16u"]}
+FIDS = {"C10": ["F3", "F10", "F16"], "C11": ["F3u", "F4", "F16u", "F80"]}
 
 
 def handmade_client(prop):
@@ -1191,35 +1200,54 @@ KEY_OF_CMD = {0x420a: "Q", 0x420c: "O", 0x420d: "D", 0x420e: "C"}
 
 
 class SystemRun:
-    """The real client functions and the real server.main loop composed over two FIFO links.  Events are chosen
-    on line by `policy(run)`; every prefix is re-executed on fresh real objects (scripts are short).
+    """The real client functions and the real server.main loop composed over two FIFO links (Coq: Model/DgramSys.v
+    ystep).  Every prefix is re-executed on fresh real objects (scripts are short).  The same events are recorded
+    as a driver line (`line(fixes)`) so that the extracted model of the COMPOSITION is compared step by step
+    (`steps`: observation, state of the component that ran, both links).
     Query payloads and resolver answers are unique, so 'who asked what' and 'which socket answered what' can be
     read off the real code's socket calls without any ghost state: a datagram carrying answer X goes astray iff
     X was received on a resolver socket whose request was captured from another asker."""
 
-    def __init__(self, maxc, to_ns=("n", 53)):
-        self.maxc, self.to_ns = maxc, to_ns
+    def __init__(self, maxc, to_ns=("n", 53), method="B", family=2):
+        self.maxc, self.to_ns, self.method, self.family = maxc, to_ns, method, family
         self.cevs, self.sevs, self.up, self.down = [], [], [], []
         self.asked, self.sock_req, self.ans_sock = {}, {}, {}
         self.live = []           # (chan, [socket ids]) of the DnsProxies in `handlers`
+        self.hchans = []         # identifiers of all handlers (DnsProxy, UdpProxy) in `handlers`
+        self.socks = []          # sockets they watch
         self.hyp_ok, self.cross, self.delivered, self.log, self.stuck = True, [], 0, [], None
+        self.hyp_any_ok = True   # no_stale_alloc_any (Props/C11.v c11_system_never_raises)
+        self.yevs, self.steps = [], []
 
     def in_flight(self, ch):
         return (any(f[0] == ch and f[1] == "Q" for f in self.up) or any(c == ch for c, _ in self.live)
+                or any(d[0] == ch and d[2] == "R" for d in self.down))
+
+    def in_flight_any(self, ch):
+        return (any(f[0] == ch and f[1] in ("Q", "O") for f in self.up) or ch in self.hchans
                 or any(d[0] == ch for d in self.down))
 
+    def _links(self):
+        return "U %s | W %s" % (",".join("%d:%s:%s" % (f[0], f[1], hx(f[2])) for f in self.up) or "~",
+                                ",".join("%d:%s" % (d[0], hx(d[1])) for d in self.down) or "~")
+
     def _client(self):
-        steps = run_client("B", self.maxc, 2, self.cevs)
+        steps = run_client(self.method, self.maxc, self.family, self.cevs)
         st = steps[len(self.cevs) - 1] if len(steps) >= len(self.cevs) else steps[-1]
         if not st.startswith("OK "):
             self.stuck = "client: " + st
-            return None
-        return parse_outs(st)
+            self.steps.append(st + " client")
+            return None, None
+        return parse_outs(st), st
 
-    def accept(self, now, src, payload):
-        self.asked[payload] = src
-        self.cevs.append(("D", now, src, None, payload))
-        outs = self._client()
+    def accept_ev(self, cev):
+        """cev: a client accept event of run_client: ("D"|"U", now, src, dst|None, payload) | ("T", now, family, dst)"""
+        self.cevs.append(cev)
+        if cev[0] == "T":
+            self.yevs.append("A|T,%d,%d,%s" % (cev[1], cev[2], addr_s(cev[3])))
+        else:
+            self.yevs.append("A|%s,%d,%s,%s,%s" % (cev[0], cev[1], addr_s(cev[2]), oaddr_s(cev[3]), hx(cev[4])))
+        outs, st = self._client()
         if outs is None:
             return
         for o in outs:
@@ -1227,49 +1255,75 @@ class SystemRun:
                 ch, cmd, data = int(o[1]), int(o[2]), unhx(o[3])
                 if cmd == CMD["Q"] and self.in_flight(ch):
                     self.hyp_ok = False          # no_stale_alloc is violated by this run
+                if cmd in (CMD["Q"], CMD["O"], 0x4203) and self.in_flight_any(ch):
+                    self.hyp_any_ok = False      # no_stale_alloc_any is violated by this run
                 self.up.append((ch, KEY_OF_CMD.get(cmd, "X"), data, 0))
-        self.log.append("A %d %s %s -> %s" % (now, addr_s(src), hx(payload), ",".join(":".join(o) for o in outs) or "~"))
+        self.steps.append("%s | %s" % (st, self._links()))
+        self.log.append("A %s -> %s" % (self.yevs[-1], ",".join(":".join(o) for o in outs) or "~"))
 
-    def server(self, now, k, ready, answer):
+    def accept(self, now, src, payload):
+        self.asked[payload] = src
+        self.accept_ev(("D", now, src, None if self.method == "B" else ("8.8.8.8", 53), payload))
+
+    def server_io(self, now, k, ready, io):
         frames, self.up = self.up[:k], self.up[k:]
-        io = [("k",), ("k",)] * sum(1 for f in frames if f[1] == "Q")      # connect + send of each new DnsProxy
-        io += [("d", answer)] if ready else []
-        if ready:
-            self.ans_sock[answer] = ready[0]
         self.sevs.append((now, frames, ready, io))
+        self.yevs.append("S|%d/%d/%s/%s" % (now, k, ",".join(str(x) for x in ready) or "~", ",".join(io_s(i) for i in io) or "~"))
         steps = run_server(self.to_ns, [], self.sevs)
         st = steps[len(self.sevs) - 1] if len(steps) >= len(self.sevs) else steps[-1]
         if not st.startswith("OK "):
             self.stuck = "server: " + st
+            self.steps.append(st + " server")
             return
         for o in parse_outs(st):
             if o[0] == "S":
                 self.sock_req[int(o[1])] = unhx(o[2])
-            elif o[0] == "F" and int(o[2]) == CMD["R"]:
-                self.down.append((int(o[1]), unhx(o[3])))
+            elif o[0] == "F":
+                self.down.append((int(o[1]), unhx(o[3]), "R" if int(o[2]) == CMD["R"] else "D"))
         hpart = st.split(" | ")[1].split(" ")[0][2:]
-        self.live = []
+        self.live, self.hchans, self.socks = [], [], []
         for h in ([] if hpart == "~" else hpart.split(",")):
             t = h.split(".")
+            self.hchans.append(int(t[1]))
+            if t[0] == "U":
+                self.socks.append(int(t[2]))
+            if t[0] == "D":
+                self.socks += [] if t[3] == "~" else [int(x) for x in t[3].split("+")]
             if t[0] == "D":
                 self.live.append((int(t[1]), [] if t[3] == "~" else [int(x) for x in t[3].split("+")]))
+        self.steps.append("%s | %s" % (st, self._links()))
         self.log.append("S %d k=%d ready=%r -> %s" % (now, k, ready, st[:120]))
 
-    def deliver(self):
-        (ch, data), self.down = self.down[0], self.down[1:]
-        self.cevs.append(("F", ch, "R", data, None))
-        outs = self._client()
+    def server(self, now, k, ready, answer):
+        io = [("k",), ("k",)] * sum(1 for f in self.up[:k] if f[1] == "Q")      # connect + send of each new DnsProxy
+        io += [("d", answer)] if ready else []
+        if ready:
+            self.ans_sock[answer] = ready[0]
+        self.server_io(now, k, ready, io)
+
+    def deliver(self, err=None):
+        (ch, data, kind), self.down = self.down[0], self.down[1:]
+        self.cevs.append(("F", ch, kind, data, err))
+        self.yevs.append("V|%s" % ("ok" if err is None else str(err)))
+        outs, st = self._client()
         if outs is None:
             return
         for o in outs:
             if o[0] == "G":
                 self.delivered += 1
-                payload = unhx(o[3])
-                req = self.sock_req.get(self.ans_sock.get(payload))
-                asker = self.asked.get(req)
-                if asker is None or addr_s(asker) != o[2]:
-                    self.cross.append("answer %r to the query %r of %r was delivered to %s" % (payload, req, asker, o[2]))
+                if kind == "R" and self.ans_sock:
+                    payload = unhx(o[3])
+                    req = self.sock_req.get(self.ans_sock.get(payload))
+                    asker = self.asked.get(req)
+                    if asker is None or addr_s(asker) != o[2]:
+                        self.cross.append("answer %r to the query %r of %r was delivered to %s" % (payload, req, asker, o[2]))
+        self.steps.append("%s | %s" % (st, self._links()))
         self.log.append("V ch=%d %s -> %s" % (ch, hx(data), ",".join(":".join(o) for o in outs) or "~"))
+
+    def line(self, fixes):
+        toks = ["Y"] + ["1" if fixes[k] else "0" for k in ("F3", "F4", "F10", "F16", "F80")]
+        toks += [self.method, str(self.maxc), str(self.family), addr_s(self.to_ns) if self.to_ns else "~", "~"]
+        return " ".join(toks + self.yevs)
 
 
 def system_stale_witness():
@@ -1312,31 +1366,134 @@ def system_random(rng, maxc, n):
     return r
 
 
+def system_random_mixed(rng, maxc, n):
+    """DNS queries, UDP datagrams and (rarely) TCP accepts mixed, tproxy method; any socket outcomes"""
+    srcs = [("10.0.0.%d" % i, 4000 + i) for i in range(1, 5)]
+    dsts = [("8.8.8.8", 53), ("1.1.1.1", 123), ("fd00::53", 65535)]
+    r = SystemRun(maxc, method="T")
+    cnow = snow = 100
+    qn = 0
+    for _ in range(n):
+        if r.stuck:
+            break
+        choices = ["D", "U", "U", "S", "S", "S"] + (["V"] * 4 if r.down else []) + (["T"] if rng.random() < 0.15 else [])
+        c = rng.choice(choices)
+        if c in ("D", "U", "T"):
+            cnow += rng.choice([0, 1, 5, 29, 30, 31])
+            qn += 1
+            if c == "D":
+                r.accept(cnow, rng.choice(srcs), b"q%d" % qn)
+            elif c == "U":
+                r.accept_ev(("U", cnow, rng.choice(srcs), rng.choice(dsts), rng.choice([b"u%d" % qn, b",", b"", b"a,b,%d" % qn])))
+            else:
+                r.accept_ev(("T", cnow, 2, ("9.9.9.9", 80)))
+        elif c == "S":
+            snow += rng.choice([0, 1, 5, 29, 30, 31])
+            ready = sorted(set(rng.choice(r.socks) for _ in range(rng.choice([0, 1, 1, 2])))) if r.socks else []
+            io = []
+            for _ in range(rng.choice([0, 0, 2, 3, 5])):
+                x = rng.random()
+                if x < 0.45:
+                    io.append(("k",))
+                elif x < 0.6:
+                    io.append(("d", b"r%d" % rng.randint(0, 99)))
+                elif x < 0.85:
+                    io.append(("f", rng.choice([b"re,ply", b"", b"x"]), rng.choice(dsts)))
+                else:
+                    io.append(("e", rng.choice(NET_ERRS + OTHER_ERRS)))
+            r.server_io(snow, rng.randint(0, len(r.up)), ready, io)
+        else:
+            r.deliver(None if rng.random() < 0.9 else rng.choice(NET_ERRS))
+    return r
+
+
+def system_f80_witness():
+    """Props/C11.v c11_f80_refuted on the real code: the frames of the real client kill the unrepaired server"""
+    A, B, R = ("10.0.0.1", 4000), ("10.0.0.2", 4000), ("8.8.8.8", 53)
+    r = SystemRun(1, method="T")
+    r.accept_ev(("U", 0, A, R, b"a"))
+    r.server_io(0, 2, [], [])
+    r.accept_ev(("U", 31, B, R, b"x"))
+    r.accept_ev(("U", 31, B, R, b"b"))
+    r.server_io(1, 3, [], [])
+    return r
+
+
+def system_f81_witness():
+    """Props/C11.v c11_system_stale_crash_refuted on the real code: a late DNS answer on an identifier re-used by a
+    UDP association kills the client (ValueError in udp_done)"""
+    A, B, R = ("10.0.0.1", 4000), ("10.0.0.2", 4000), ("8.8.8.8", 53)
+    r = SystemRun(1, method="T")
+    r.accept_ev(("D", 0, A, R, b"q"))
+    r.server_io(0, 1, [], [])
+    r.accept_ev(("U", 31, B, R, b"x"))
+    r.accept_ev(("U", 31, B, R, b"b"))
+    r.server_io(30, 0, [0], [("d", b"o")])
+    r.deliver()
+    return r
+
+
 def _system_cases(ctx, rng, quick):
-    """C10 composed: no reply goes to another requester unless the run violates no_stale_alloc"""
+    """the composed system: model of the composition vs the real composition, step by step; C10: no reply goes to
+    another requester unless the run violates no_stale_alloc; C11: neither side fails unless the run violates
+    no_stale_alloc_any, the server never"""
+    fx = detect_fixes()
+    runs = []
     w = system_stale_witness()
     ctx.count("system_stale_witness_" + ("cross" if w.cross and not w.hyp_ok else "unexpected"))
     ctx.case(("system", "stale-witness"), nontrivial=True, sample={"side": "system", "log": w.log, "cross": w.cross})
     if not (w.cross and not w.hyp_ok and w.stuck is None):
         ctx.disagree("system stale-reuse witness", {"log": w.log}, "cross=%r hyp_ok=%r stuck=%r" % (w.cross, w.hyp_ok, w.stuck),
                      "cross delivery under violated no_stale_alloc (Lemma stale_run)", holds=True)
+    runs.append((w, "witness-stale"))
+    w80 = system_f80_witness()
+    runs.append((w80, "witness-F80"))
+    if (w80.stuck == "server: FATAL") != (not fx["F80"]):
+        ctx.disagree("system F80 witness", {"log": w80.log}, "stuck=%r" % w80.stuck, "FATAL iff F80 unrepaired", holds=True)
+    w81 = system_f81_witness()
+    runs.append((w81, "witness-F81"))
+    if w81.stuck and "ValueError" in w81.stuck and not w81.hyp_any_ok:
+        ctx.known("F81", "late DNS answer on an identifier re-used by a UDP association: ValueError in udp_done kills the client")
+    else:
+        ctx.disagree("system F81 witness", {"log": w81.log}, "stuck=%r hyp=%r" % (w81.stuck, w81.hyp_any_ok),
+                     "client ValueError under violated no_stale_alloc_any (c11_system_stale_crash_refuted)", holds=True)
     for i in range(60 if quick else 1500):
         maxc = rng.choice([65535, 65535, 65535, 8, 2, 1])
-        r = system_random(rng, maxc, rng.randint(4, 14))
+        runs.append((system_random(rng, maxc, rng.randint(4, 14)), "dns"))
+    for i in range(120 if quick else 3000):
+        maxc = rng.choice([65535, 65535, 8, 3, 2, 1])
+        runs.append((system_random_mixed(rng, maxc, rng.randint(4, 16)), "mixed"))
+    outs = ctx.run_driver([r.line(fx) for r, _ in runs])
+    for (r, kind), o in zip(runs, outs):
+        model = split_steps(o)
         ctx.count("system_runs")
+        ctx.count("system_runs_" + kind)
         ctx.count("system_runs_hypothesis_" + ("holds" if r.hyp_ok else "violated"))
+        ctx.count("system_runs_no_stale_alloc_any_" + ("holds" if r.hyp_any_ok else "violated"))
         ctx.count("system_datagrams_delivered", r.delivered)
+        ctx.count("system_steps", len(r.steps))
         if r.stuck:
-            ctx.count("system_runs_stuck")
+            ctx.count("system_runs_stuck_" + r.stuck.replace(": ", "_").replace(" ", "_"))
         if r.cross:
             ctx.count("system_cross_" + ("under_stale_reuse" if not r.hyp_ok else "VIOLATION"))
-        ctx.case(("system", tuple(r.log)), nontrivial=r.delivered > 0,
-                 sample={"side": "system", "max_channel": maxc, "events": len(r.log), "delivered": r.delivered,
-                         "hypothesis_holds": r.hyp_ok, "cross": r.cross[:1]})
+        ctx.case(("system", tuple(r.yevs), r.maxc), nontrivial=r.delivered > 0 or len(r.steps) > 3,
+                 sample={"side": "system", "max_channel": r.maxc, "events": len(r.yevs), "delivered": r.delivered,
+                         "no_stale_alloc": r.hyp_ok, "no_stale_alloc_any": r.hyp_any_ok, "stuck": r.stuck, "cross": r.cross[:1]})
+        if r.steps != model:
+            k = next((i for i, (a, b) in enumerate(zip(r.steps, model)) if a != b), min(len(r.steps), len(model)))
+            ctx.disagree("system step %d" % k, {"line": r.line(fx)}, (r.steps + ["<end>"])[k][:600], (model + ["<end>"])[k][:600],
+                         holds=not (r.cross and r.hyp_ok))
+        if kind.startswith("witness"):
+            continue
         if r.cross and r.hyp_ok:
-            ctx.violation("c10_no_cross_composed", {"system_log": r.log, "detail": r.cross, "max_channel": maxc})
-        if r.stuck and r.hyp_ok:
-            ctx.violation("crash", {"system_log": r.log, "detail": r.stuck, "max_channel": maxc})
+            ctx.violation("c10_no_cross_composed", {"system_log": r.log, "detail": r.cross, "max_channel": r.maxc})
+        if r.stuck and r.stuck.startswith("server") and not (r.stuck == "server: FATAL" and not fx["F80"]):
+            ctx.violation("c11_system_server_never_raises", {"system_log": r.log, "line": r.line(fx), "detail": r.stuck})
+        elif r.stuck and r.stuck.startswith("client"):
+            if r.hyp_any_ok:
+                ctx.violation("c11_system_never_raises", {"system_log": r.log, "line": r.line(fx), "detail": r.stuck})
+            else:
+                ctx.count("system_client_failure_under_stale_reuse")
 
 
 def _codec_cases(ctx, rng, quick):
@@ -1386,8 +1543,7 @@ def run_check(ctx, prop):
         if fails:
             ctx.violation("%s: %s" % (base, WITNESS[fid]["what"]), {"witness": fid, "script": WITNESS[fid], "outcome": last})
     _codec_cases(ctx, rng, quick)
-    if prop == "C10":
-        _system_cases(ctx, rng, quick)
+    _system_cases(ctx, rng, quick)
 
     # ---- client scripts
     cases = [(m, mc, fam, evs, "handmade") for m, mc, fam, evs in handmade_client(prop)]
@@ -1461,6 +1617,8 @@ def run_check(ctx, prop):
         for what, detail in viol:
             if what == "crash" and not all(fx[k] for k in ("F4", "F10")):
                 continue
+            if what == "fatal" and not fx["F80"]:
+                continue      # reported once through the defect witness F80
             ctx.violation(what, {"script": ser_server(t, s, evs), "detail": detail})
     ctx.programs = ctx.evaluations
 
